@@ -277,9 +277,10 @@ pub fn run(opts: &Opts) -> i32 {
         (BackendKind::Cloud, if q { 4 } else { 5 }),
         (BackendKind::Local, if q { 3 } else { 4 }),
         (BackendKind::Http, if q { 2 } else { 3 }),
+        // cheap and unique configurations first: what a wall-clock budget cuts is the tail
+        (BackendKind::GitRemoteFresh, 0),
         (BackendKind::GitLocal, if q { 2 } else { 3 }),
         (BackendKind::GitRemote, if q { 2 } else { 3 }),
-        (BackendKind::GitRemoteFresh, 0),
     ];
     let only = std::env::var("TCMC_BACKEND").ok();
     if only.is_none() {
